@@ -127,6 +127,44 @@ def scen_merge_order(ch, params, out):
               lambda: f"similarity table {bits}: samples in order 0..{n - 1} give classes {a}, in order {perm} give {b}", "order_dependent:merge_partition")
 
 
+def scen_many_strings(ch, params, out):
+    """one string field over many samples, at the literal limit: the same values once more (at the front, at the end, next to the
+    original) or in another order must give the same type -- also when the values are the elements of a list"""
+    from vflib import oracles, pipeline
+    counts = params.get("counts", [1, 2, 14, 15, 16])
+    vkinds = [("reverse",), ("rotate",)] + [("repeat", which, pos) for which in ("first", "last") for pos in ("front", "end", "adjacent")] + \
+             [("repeat_all",)]
+    c, variant = ch.choose("count,variant", [(c, v) for c in counts for v in vkinds], shard=True)
+    where = ch.choose("values_are", ["field_of_each_sample", "elements_of_one_list"])
+    long_one = ch.flag("one_value_has_20_characters")
+    strs = [f"v{i:02d}" for i in range(c)]
+    if long_one:
+        strs[c // 2] = "L" * 20
+    seq = list(strs)
+    if variant[0] == "reverse":
+        seq = seq[::-1]
+    elif variant[0] == "rotate":
+        seq = seq[1:] + seq[:1]
+    elif variant[0] == "repeat_all":
+        seq = seq + seq
+    else:
+        i = 0 if variant[1] == "first" else c - 1
+        pos = {"front": 0, "end": len(seq), "adjacent": i + 1}[variant[2]]
+        seq.insert(pos, strs[i])
+
+    def run(values):
+        samples = [{"a": v, "n": 1} for v in values] if where == "field_of_each_sample" else [{"a": list(values), "n": 1}]
+        return oracles.canon_registry(pipeline.infer({"Root": samples})[1])
+    out.info = {"count": c, "variant": list(variant), "where": where, "long": long_one}
+    try:
+        c1, c2 = run(strs), run(seq)
+    except Exception as e:
+        out.fail("variant_raises", f"{type(e).__name__}: {e} for {seq}", "variant_raises")
+        return
+    out.check(c1 == c2, "order_or_repetition_dependent", lambda: f"{c} strings {where}: {strs} -> {c1}\n but {variant}: {seq} -> {c2}",
+              f"order_dependent:many_strings:{variant[0]}")
+
+
 def scen_merge_order_real(ch, params, out):
     """registry level with the REAL comparators (small thresholds, so that models over a 4-key universe reach them): three nested
     models of chosen key sets; the classes after merging must not depend on the order in which the samples introduce them"""
@@ -168,9 +206,16 @@ def parts(tier):
                    shards=16, timeout=170, path_timeout=60, mode="CH-P+CH-E"),
                 CH("merge_order", "vflib.props.c07:scen_merge_order", {"models": 4}, shards=16, timeout=170, path_timeout=30),
                 CH("merge_order_real_comparators", "vflib.props.c07:scen_merge_order_real", {"keys": 4}, shards=16, timeout=170, path_timeout=30),
+                CH("order_literal_limits", "vflib.props.c07:scen_order", {"kinds": "KINDS_LITORDER", "samples": 3, "symbolic_leaves": False},
+                   shards=16, timeout=170, path_timeout=60, mode="CH-E"),
+                CH("many_strings_at_the_literal_limit", "vflib.props.c07:scen_many_strings", {}, shards=15, timeout=170, path_timeout=60, mode="CH-E"),
                 CH("order_objects", "vflib.props.c07:scen_order", {"kinds": "KINDS_ORDER2", "samples": 3, "dkr": [None, "^\\d+$"], "symbolic_leaves": False},
                    shards=16, timeout=170, path_timeout=60, mode="CH-E")]
     return [CH("merge_order", "vflib.props.c07:scen_merge_order", {"models": 5}, shards=16, timeout=400, path_timeout=30),
+            CH("order_literal_limits", "vflib.props.c07:scen_order", {"kinds": "KINDS_LITORDER", "samples": 3, "symbolic_leaves": False, "merge": ["default", "p50n2"]},
+               shards=16, timeout=400, path_timeout=60, mode="CH-E"),
+            CH("many_strings_at_the_literal_limit", "vflib.props.c07:scen_many_strings", {"counts": [1, 2, 3, 8, 13, 14, 15, 16, 17, 30]}, shards=16, timeout=400, path_timeout=60,
+               mode="CH-E"),
             CH("merge_order_real_comparators", "vflib.props.c07:scen_merge_order_real", {"keys": 5, "policies": ["p70_n2", "p50_n3", "exact_n2", "default"],
                                                                                           "orders": [(2, 1, 0), (1, 2, 0), (1, 0, 2), (0, 2, 1), (2, 0, 1)]},
                shards=16, timeout=400, path_timeout=30),
